@@ -42,7 +42,10 @@ ASSUMPTIONS = [
     'StopIteration below the lazy Iter() construct, raised by a generator target (converted to RuntimeError by Python '
     'itself, PEP 479) or inside the key of First (ends the search) is left out; a fault that is itself a '
     'PathAccessError after a wildcard is a documented miss (C14) and left out',
-    'top-level defaults tried: opaque object, None, a list, a dict holding a T expression and a list, T itself; '
+    'skip_exc shapes: a class, a tuple of classes, the empty tuple; a nested tuple of classes or an exception '
+    'instance is rejected by Python\'s own except clause (TypeError) and has no meaning for the law',
+    'top-level defaults tried: opaque object, None, a list, a dict holding a T expression and a list, T itself, a '
+    'namedtuple holding a T expression, and the falsy 0, [], an object with data whose __bool__ is False; '
     'identity of the returned default is what is judged',
     'TLC, the Json community module and the probe nodes (checked to be transparent by probe-less re-runs) are trusted',
 ]
@@ -80,7 +83,7 @@ def n_hows(ctxs, leaf):
     if leaf['kind'] == 'glomdoc':
         return len(W.GLOM_LEAVES[leaf['id']])
     if ctxs and ctxs[-1]['k'] == 'geniter':
-        return 3
+        return 4
     if ctxs and ctxs[-1]['k'] in ('checkval', 'pathget', 'targ', 'firstkey', 'afterstar'):
         return 1
     return len(W.USER_HOWS)
@@ -146,6 +149,17 @@ def replay_case(st, res):
                 res['agree'] += 1
         else:
             res['pending'].append(dict(ctxs=ctxs, leaf=leaf, kw=kw, ev=evs, out=obs, how=how, want=want_out))
+        # the same spec objects, exception instance and default object evaluated again, after the
+        # first result has been mutated: nothing may be remembered between evaluations
+        one_shot = bool(ctxs) and ctxs[-1]['k'] == 'geniter'
+        if not one_shot and (res['n'] % 3 == 1 or (_TIER == 'thorough' and len(ctxs) == 0)):
+            out2 = w.rerun(kw, out)
+            evs2 = [e['r'] for e in w.events()]
+            got2 = W.proj_out_obs(w.project_out(out2, w.arrival()), arrcid)
+            res['reruns'] += 1
+            if evs2 != evs or got2 != got:
+                res['bad'].append(dict(why='second evaluation of the same spec objects differs: first %s / %s, second %s / %s'
+                                       % (evs, got, evs2, got2), case=dict(base, law='reuse', site='second-evaluation')))
         # probes must be transparent: same outcome without them
         if (_TIER != 'thorough' or len(ctxs) > 1) and res['n'] % 4:
             continue
@@ -156,7 +170,7 @@ def replay_case(st, res):
 
 
 def worker(states):
-    res = dict(n=0, cases=0, nontrivial=0, agree=0, excluded=0, bad=[], pending=[], samples=[],
+    res = dict(n=0, cases=0, nontrivial=0, agree=0, excluded=0, reruns=0, bad=[], pending=[], samples=[],
                actions={})
     for st in states:
         if st['ph'] == 'excluded':
@@ -281,7 +295,7 @@ def rand_ctx(rng):
         c['v'] = rng.choice(PASS_V)
     elif k == 'coal':
         c.update(skip=rng.choice(['default', 'exact', 'other', 'tuple', 'tuple_non', 'exception', 'keyerror',
-                                  'glomerror', 'base']),
+                                  'glomerror', 'base', 'empty']),
                  sib=rng.choice(['none', 'ok']), dflt=rng.choice(['absent', 'obj']))
     elif k == 'or':
         c['v'] = rng.choice(['first', 'last'])
@@ -293,7 +307,7 @@ def rand_ctx(rng):
     return c
 
 
-KW_DEFAULTS = ['absent', 'obj', 'none', 'list', 'dictT', 't']
+KW_DEFAULTS = ['absent', 'obj', 'none', 'list', 'dictT', 't', 'ntup', 'zero', 'elist', 'fobj']
 KW_SKIPS = ['absent', 'exact', 'other', 'tuple', 'tuple_non', 'glomerror', 'exception', 'keyerror', 'base', 'empty']
 
 
@@ -315,7 +329,7 @@ def rand_row(rng):
     if kind != 'glomdoc' and rng.random() < 0.4:
         lk = rng.choice(['checkval', 'pathget', 'geniter', 'geniter', 'targ', 'targ', 'firstkey', 'firstkey',
                          'afterstar', 'afterstar'])
-        ctxs.append(dict(k=lk, v=rng.choice(['k1', 'k2']) if lk == 'geniter' else
+        ctxs.append(dict(k=lk, v=rng.choice(['k1', 'k2', 'k3']) if lk == 'geniter' else
                          rng.choice(['idx_spec', 'idx_invoke', 'call_spec']) if lk == 'targ' else
                          rng.choice(['first', 'iterfirst', 'afterstep']) if lk == 'firstkey' else
                          rng.choice(['call', 'ss_call', 'idx_spec']) if lk == 'afterstar' else '-', skip='-', sib='-', dflt='-'))
@@ -409,7 +423,7 @@ def corrupted_row_rejected(check, rows):
     check.extra['corrupted_row_rejected'] = True
 
 
-MUTANTS = {'eq_compare': 'CreatedAreDocumented', 'firstkey_nested_top': 'TransparentLaw',
+MUTANTS = {'falsy_default_dropped': 'InvDefaultSelective', 'eq_compare': 'CreatedAreDocumented', 'firstkey_nested_top': 'TransparentLaw',
            'star_drops_glomerror': 'TransparentLaw', 'falsy_swallowed': 'InvClassKept', 'copy_hardcodes_base': 'InvClassKept',
            'falsy_skip_omitted': 'InvDefaultSelective', 'arg_in_guard': 'TransparentLaw', 'default_arg_val': 'InvDefaultSelective', 'iter_wraps': 'CreatedAreDocumented', 'copy_unguarded': 'InvClassKept', 'ctor_rerun': 'InvClassKept', 'skip_after_wrap': 'InvDefaultSelective', 'default_none_absent': 'InvDefaultSelective',
            'debug_copies': 'InvDebug', 'wrap_glom_only': 'InvClassKept', 'wrap_no_fallback': 'InvClassKept',
@@ -444,7 +458,7 @@ def main(tier, seed):
     runs = {'quick': [(0, 0, True, 'full'), (1, 1, True, 'mid'), (2, 2, False, 'tiny')],
             'thorough': [(0, 1, True, 'full'), (2, 2, True, 'tiny'), (3, 3, False, 'tiny')]}[tier]
     acts, pending = {}, []
-    total = dict(cases=0, agree=0, excluded=0)
+    total = dict(cases=0, agree=0, excluded=0, reruns=0)
     for (mind, maxd, rich, kwmode) in runs:
         c = tlc_consts('none', mind, maxd, rich, kwmode)
         res, results = vlib.map_states('MC_C04', worker, constants=c)
@@ -474,7 +488,7 @@ def main(tier, seed):
     if pending:   # outcome differs from the mechanism's prediction: let the laws decide (violation or drift)
         judge_rows(check, pending, 'replay-mismatch', stats)
     # (3) code -> spec
-    rows = record(check, {'quick': 8000, 'thorough': 60000}[tier], seed, stats)
+    rows = record(check, {'quick': 8000, 'thorough': 40000}[tier], seed, stats)
     _t('record')
     check.extra['drift'] = stats.get('drift', 0)
     corrupted_row_rejected(check, rows)
